@@ -153,6 +153,9 @@ func (se *SessionExecutor) handleStmtExecute(reqCtx *util.RequestContext, data [
 			strconv.FormatUint(uint64(id), 10), "stmt_execute")
 	}
 
+	// whatever happens to this execution, nothing bound or sent for it may survive into the next one
+	defer s.ResetParams()
+
 	flag := data[pos] & mysql.CursorTypeReadOnly
 	pos++
 	//now we only support CURSOR_TYPE_NO_CURSOR flag
@@ -206,7 +209,6 @@ func (se *SessionExecutor) handleStmtExecute(reqCtx *util.RequestContext, data [
 	} else {
 		executeSQL = s.sql
 	}
-	defer s.ResetParams()
 	// execute sql using ComQuery
 	return se.handleQuery(reqCtx, executeSQL)
 }
